@@ -306,7 +306,7 @@ pub fn run_c17_crlf(tier: Tier) {
     string_sweep("C17 CRLF", &tok, 4, tier.pick(4, 5), two.clone(), None, c17_crlf_check);
     let blocks = Alphabet::new(
         "A_lines",
-        &[">> k: v\n", "= s\n", "step @a{1}\n", "> p\n", "\n", "---\n", "k: v\n", "-- c\n", "[- c\n", "-]", "text", " ", "@b c{1%kg}", "\r\n", "~{1%min}", "t: |\n", "  x\n"],
+        &[">> k: v\n", "= s\n", "step @a{1}\n", "> p\n", "\n", "---\n", "k: v\n", "-- c\n", "[- c\n", "-]", "text", " ", "@b c{1%kg}", "\r\n", "~{1%min}", "t: |\n", "  x\n", "@a", "b{}", "#p|q", "(n", "m)", "{1%fl", "oz}", "{two", "big}"],
     );
-    string_sweep("C17 CRLF lines", &blocks, 0, tier.pick(5, 6), two, None, c17_crlf_check);
+    string_sweep("C17 CRLF lines", &blocks, 0, tier.pick(4, 5), two, None, c17_crlf_check);
 }
